@@ -1,4 +1,5 @@
-"""C38 - GVCF/VDS combiner merges every input exactly once (claimed clauses: even genome partitioning; merge-plan slices).
+"""C38 - GVCF/VDS combiner merges every input exactly once (claimed clauses: even genome partitioning; merge-plan slices; where
+the merged datasets go and when the final output may be written; step dispatch; the step parameters of new / resumed plans).
 
 calculate_even_genome_partitioning.calc_parts (hail/python/hail/vds/combiner/combine.py): for every contig length L >= 1
 and every interval_size >= 1 the returned inclusive intervals tile [1, L]: first starts at 1, consecutive intervals are
@@ -114,6 +115,9 @@ print(json.dumps(res))
 '''
 
 
+COMBINER_REPLAY = open(__import__('os').path.join(__import__('os').path.dirname(__import__('os').path.abspath(__file__)), 'native', 'c38_combiner_replay.py')).read()
+
+
 # ---- merge plan: every pending input goes into exactly one merge ---------------------------------------------------------------
 COMB = 'hail/python/hail/vds/combiner/variant_dataset_combiner.py'
 
@@ -201,11 +205,477 @@ def _plan(ctx):
     fresh = 'self._uuid = uuid.uuid4()' in init or any("'_job_id'" in x and "'_uuid'" in x for x in ser)
     ctx.add(core.decided('C38/VariantDatasetCombiner/intermediate-paths-of-a-resumed-run-are-fresh', fresh, 'uuid4 per object, or job id and uuid saved with the plan', kind='scan'))
     ctx.under_contract(COMB, 'VariantDatasetCombiner.__init__ (intermediate path prefix)')
+    props = _Props(ctx, tree)
+    _filing(ctx, tree, props)
+    _resume(ctx, tree, _Props(ctx, tree))
+    _setter_and_step(ctx, tree, _Props(ctx, tree))
+
+
+
+# ---- wave 4: where the merged datasets go, who may write the final output, the plan's parameters after a resume ---------------
+import ast as _ast
+
+
+def _class_properties(tree, cls):
+    """the @property getters / @<name>.setter functions of a class, read from the real class body"""
+    out = {}
+    cnode = [n for n in tree.body if isinstance(n, _ast.ClassDef) and n.name == cls][0]
+    for n in cnode.body:
+        if not isinstance(n, _ast.FunctionDef):
+            continue
+        for d in n.decorator_list:
+            t = _ast.unparse(d)
+            if t == 'property':
+                out.setdefault(n.name, {})['get'] = n
+            elif t == n.name + '.setter':
+                out.setdefault(n.name, {})['set'] = n
+    return out
+
+
+class _InlineCtx:
+    """the check context as seen by an inlined property body: its 'precondition' is the caller's path condition, already covered by
+    the caller's vacuity obligations and the executor's feasibility checks, so that one obligation is not repeated per inlining"""
+
+    def __init__(self, ctx):
+        self.__dict__['_ctx'] = ctx
+
+    def __getattr__(self, n):
+        return getattr(self._ctx, n)
+
+    def __setattr__(self, n, v):
+        setattr(self._ctx, n, v)
+
+    def add(self, o, **kw):
+        if o.name.endswith('/vacuity/requires-satisfiable'):
+            return o
+        return self._ctx.add(o, **kw)
+
+
+class _Props:
+    """call models `property:<name>` / `property-set:<name>` (vc/pyvc.py getattr / assign on records) that EXECUTE the real getter /
+    setter body of VariantDatasetCombiner on the record; every outcome of the body comes back as one alternative of a path split"""
+
+    def __init__(self, ctx, tree, cls='VariantDatasetCombiner', skip=()):
+        self.ctx, self.cls, self.seq = ctx, cls, 0
+        self.props = _class_properties(tree, cls)
+        self.consts = {}
+        cnode = [n for n in tree.body if isinstance(n, _ast.ClassDef) and n.name == cls][0]
+        kv = {}
+        for n in cnode.body:
+            if isinstance(n, _ast.Assign) and len(n.targets) == 1 and isinstance(n.targets[0], _ast.Name) and isinstance(n.value, _ast.Constant):
+                kv[n.targets[0].id] = n.value.value
+        self.consts[cls] = pyvc.SRecord('classobj:' + cls, kv)
+        self.skip = set(skip)
+
+    def models(self, base_calls):
+        calls = dict(base_calls)
+        for name, d in self.props.items():
+            if name in self.skip:
+                continue
+            if 'get' in d:
+                calls['property:' + name] = (lambda fn, nm: lambda eng, st, args, kw, node: self._run(eng, st, fn, nm, args[0], {}, node))(d['get'], name)
+            if 'set' in d:
+                calls['property-set:' + name] = (lambda fn, nm: lambda eng, st, args, kw, node: self._run(eng, st, fn, nm, args[0], {fn.args.args[1].arg: args[1]}, node))(d['set'], name)
+        self.calls = calls
+        return calls
+
+    def _run(self, eng, st, fn, name, rec, params, node):
+        if node is not None and id(node) in st.decided:
+            kind, payload = st.take_decided(node)
+            if kind == 'raise':
+                raise pyvc.PyRaise(payload)
+            return payload
+        self.seq += 1
+        pc = list(st.pc)
+
+        def setup(e2, s2):
+            s2.env['self'] = rec.clone()
+            for k, v in params.items():
+                s2.env[k] = v
+            for c in pc:
+                s2.assume(c)
+
+        c = Contract(path=COMB, qualname='%s.%s' % (self.cls, name), label='%s.%s[%s]#%d' % (self.cls, name, 'setter' if params else 'getter', self.seq), fragment=('re:.', len(fn.body)),
+                     setup=setup, calls=self.calls, consts=dict(eng.c.consts, **self.consts), raises={'*': True}, float_as_real=True, strings=eng.c.strings, types=dict(eng.c.types))
+        sub = pyvc.Engine(_InlineCtx(self.ctx), c)
+        sub.fn = fn  # the def carrying the decorator (getter and setter share a name)
+        sub.loop_ordinals = {id(n): k for k, n in enumerate(sub._loops_preorder(fn))}
+        outs = []
+        sub.at_return = lambda s2, res: outs.append(('value', res, s2))
+        sub.at_raise = lambda s2, exc: outs.append(('raise', exc, s2))
+        sub.run()
+        self.ctx.under_contract(COMB, '%s.%s (%s)' % (self.cls, name, 'setter' if params else 'getter'))
+        base = len(pc)
+
+        def effect(sub_state):
+            def apply(caller):
+                target = eng.ev(node.value, caller) if node is not None else rec
+                target.fields.update(sub_state.env['self'].fields)
+            return apply
+
+        alts = []
+        for i, (kind, payload, s2) in enumerate(outs):
+            extra = list(s2.pc[base:])
+            alts.append(('%s-%d' % (name, i), z3.And(*extra) if extra else None, kind, payload, effect(s2)))
+        if len(alts) == 1 and alts[0][1] is None:
+            rec.fields.update(outs[0][2].env['self'].fields)
+            if alts[0][2] == 'raise':
+                raise pyvc.PyRaise(alts[0][3])
+            return alts[0][3]
+        if node is None:
+            raise core.Undecided('property %s splits the path where no statement can be re-executed' % name)
+        raise pyvc.Fork(node, alts)
+
+
+
+def _tail_anchor(fn, what):
+    """header text (as a regex anchor) of the first top-level statement of `fn` that contains a call of self.<what>"""
+    import re
+
+    for i, stmt in enumerate(fn.body):
+        for n in _ast.walk(stmt):
+            if isinstance(n, _ast.Call) and pyvc._dotted(n.func) == 'self.' + what:
+                return i, 're:^' + re.escape(pyvc._header_text(stmt)) + '$'
+    return None, None
+
+
+def _engine_call(eng, st, args, kw, node):
+    """a call into the query engine / file system / logger: no effect on the combiner's plan (assumption), opaque result"""
+    return z3.Const(pyvc.fresh_name('engine_result'), pyvc.U)
+
+
+def _write_final(eng, st, args, kw, node):
+    rec = st.env['self']
+    st.env['FINAL'] = st.env['FINAL'] + 1
+    st.env['FINAL_G'] = rec.fields['_gvcfs'].len  # what is still pending at the moment of the final write
+    st.env['FINAL_V'] = rec.fields['_vdses'].size
+    st.env['FINAL_ARG'] = args[0]
+    return None
+
+
+def _dd_read(eng, st, args, kw, node):
+    """self._vdses is a collections.defaultdict(list) (checked on __init__): reading a missing bin yields (and stores) an empty list"""
+    m, k = args
+    kz = pyvc.to_z3(k, m.kt)
+    l = pyvc.from_z3(z3.Select(m.val, kz), m.vt)
+    v = pyvc.SList(z3.If(z3.Select(m.has, kz), l.len, 0), l.arr, l.et)
+    if not getattr(eng, 'in_spec', False):
+        eng.assign(node.value, eng.store(m, k, v, st, node), st)
+    return v
+
+
+def _metadata(eng, st, args, kw, node):
+    p = kw['path'] if 'path' in kw else args[0]
+    n = kw['n_samples'] if 'n_samples' in kw else args[1]
+    return eng.uf('VDSMetadata', ['str', 'int'], 'U')(pyvc.to_z3(p, 'str'), pyvc.to_z3(n, 'int'))
+
+
+def _log(eng, st, args, kw, node):
+    return eng.uf('math_log', ['int', 'int'], 'real')(eng.num(args[0]), eng.num(args[1]))
+
+
+def _floor(eng, st, args, kw, node):
+    x = eng.num(args[0])
+    return x if z3.is_int(x) else z3.ToInt(x)
+
+
+def _str_model(name, n):
+    def model(eng, st, args, kw, node):
+        return eng.uf(name, ['str'] * 1 + ['int'] * (n - 1), 'str')(*[pyvc.to_z3(a, 'str' if i == 0 else 'int') for i, a in enumerate(args[:n])])
+    return model
+
+
+FILING_TYPES = {'.n_samples': 'int', '.path': 'str', 'merge_metadata': 'List[U]', 'paths': 'List[str]'}
+META_AXIOM = "forall('str', 'int', lambda p_, n_: VDSMetadata(p_, n_).n_samples == n_ and VDSMetadata(p_, n_).path == p_)"
+KEPT = "forall(lambda b: implies(b in OLD, b in self._vdses and len(OLD[b]) <= len(self._vdses[b]) and forall(lambda j: implies(0 <= j < len(OLD[b]), self._vdses[b][j] == OLD[b][j]))))"
+SAME_BINS = "forall(lambda b: (b in self._vdses) == (b in OLD) and implies(b in OLD, self._vdses[b] == OLD[b]))"
+FINAL_ONLY_AT_THE_END = ('the-final-output-is-written-only-when-no-gvcf-and-no-dataset-is-pending', 'implies(FINAL >= 1, FINAL_G == 0 and FINAL_V == 0)')
+
+
+def _filing_setup(extra=None):
+    def setup(eng, st):
+        f = {'_gvcfs': st.env['G'], '_vdses': st.env['BINS'], '_branch_factor': st.env['BF'], '_job_id': st.env['JOB'], '_output_path': st.env['OUT'], '_temp_path': st.env['TMP'], '_uuid': st.env['UUID'],
+             '_target_records': st.env['TR']}
+        st.env['self'] = pyvc.SRecord('VariantDatasetCombiner', f)
+        st.env['OLD'] = st.env['BINS']
+        st.env['FINAL'] = z3.IntVal(0)
+        st.env['FINAL_G'] = z3.IntVal(-1)
+        st.env['FINAL_V'] = z3.IntVal(-1)
+        st.env['FINAL_ARG'] = z3.Const('no_final_arg', pyvc.U)
+        if extra:
+            extra(eng, st)
+    return setup
+
+
+FILING_INPUTS = {'G': 'List[U]', 'BINS': 'Map[int, List[U]]', 'BF': 'int', 'JOB': 'int', 'OUT': 'str', 'TMP': 'str', 'UUID': 'U', 'TR': 'int'}
+
+
+def _filing(ctx, tree, props):
+    base_calls = {
+        'self._write_final': _write_final, 'subscript:self._vdses': _dd_read, 'VDSMetadata': _metadata, 'log': _log, 'floor': _floor,
+        'self._temp_out_path': lambda eng, st, args, kw, node: eng.uf('temp_out_path', ['str'], 'str')(pyvc.to_z3(args[0], 'str')),
+        'os.path.join': lambda eng, st, args, kw, node: eng.uf('path_join%d' % len(args), ['str'] * len(args), 'str')(*[pyvc.to_z3(a, 'str') for a in args]),
+        '.rjust': lambda eng, st, args, kw, node: z3.String(pyvc.fresh_name('rjust')),
+        'hl.vds.write_variant_datasets': _engine_call, '.write': _engine_call, 'info': _engine_call,
+    }
+    calls = props.models(base_calls)
+    cs = []
+    # (4) _step_gvcfs, from the statement that may write the final output to the end: the datasets imported in this batch either ARE
+    #     the result (one dataset, nothing else pending) or are all filed as pending datasets
+    g = pyvc.find_function(tree, 'VariantDatasetCombiner._step_gvcfs')
+    gi, ganchor = _tail_anchor(g, '_write_final')
+    ctx.add(core.decided('C38/VariantDatasetCombiner._step_gvcfs/the-final-output-is-written-from-one-top-level-statement-after-the-import-loop',
+                         gi is not None and any(isinstance(x, _ast.For) for x in g.body[:gi]) and sum(1 for n in _ast.walk(g) if isinstance(n, _ast.Call) and pyvc._dotted(n.func) == 'self._write_final') == 1,
+                         'index %r' % gi, kind='scan'))
+    if gi is not None:
+        # the guard alone, with quantifier-free hypotheses (a failing guard then has a counter-model the solver can produce)
+        cs.append(Contract(
+            path=COMB, qualname='VariantDatasetCombiner._step_gvcfs', label='VariantDatasetCombiner._step_gvcfs[final-write guard]', fragment=(ganchor, 1),
+            types=dict(FILING_TYPES, merge_vds='List[U]'), extra_inputs=dict(FILING_INPUTS, MV='List[U]'), strings=True, float_as_real=True,
+            setup=_filing_setup(lambda eng, st: st.env.update({'merge_vds': st.env['MV']})), requires=['BF >= 2', 'len(MV) >= 1'], calls=calls,
+            ensures=[FINAL_ONLY_AT_THE_END, ('the-final-output-is-the-single-dataset-of-this-batch-written-once', 'implies(FINAL >= 1, FINAL == 1 and len(merge_vds) == 1 and FINAL_ARG == merge_vds[0])'),
+                     ('pending-inputs-untouched', 'self._gvcfs == G and len(self._vdses) == len(OLD)')],
+            raises={}, canaries=[('never-final', 'FINAL == 0'), ('always-final', 'FINAL == 1')],
+        ))
+        cs.append(Contract(
+            path=COMB, qualname='VariantDatasetCombiner._step_gvcfs', label='VariantDatasetCombiner._step_gvcfs[filing]', fragment=(ganchor, len(g.body) - gi),
+            types=dict(FILING_TYPES, merge_vds='List[U]', merge_n_samples='List[int]', FILED_L='List[U]'), extra_inputs=dict(FILING_INPUTS, MV='List[U]', MN='List[int]', MM0='List[U]'), strings=True, float_as_real=True,
+            setup=_filing_setup(lambda eng, st: st.env.update({'merge_vds': st.env['MV'], 'merge_n_samples': st.env['MN'], 'merge_metadata': st.env['MM0']})),  # MM0: value of a name the final-write path never binds
+            requires=['BF >= 2', 'len(MV) == len(MN)', 'len(MV) >= 1'], axioms=[META_AXIOM], calls=calls,
+            ghosts=[pyvc.Ghost('re:^self\\._vdses\\[.*\\]\\.append\\(md\\)$', 'FILED_L = FILED_L + [md]')], ghost_init={'FILED_L': '[]'},
+            loops={'re:^for md in ': LoopSpec(index='k_', modifies=['FILED_L'], invariants=[
+                ('pending-datasets-kept-in-order', KEPT), ('no-final-write', 'FINAL == 0'),
+                ('the-records-so-far-are-filed-one-by-one', 'len(FILED_L) == k_ and forall(lambda j: implies(0 <= j < k_, FILED_L[j] == merge_metadata[j]))')])},
+            ensures=[
+                ('a-final-write-files-nothing', 'implies(FINAL >= 1, ' + SAME_BINS + ')'),
+                ('pending-gvcfs-untouched', 'self._gvcfs == G'),
+                ('pending-datasets-are-kept-in-order', KEPT),
+                ('every-record-is-filed-exactly-once', 'implies(FINAL == 0, FILED_L == merge_metadata)'),
+                ('one-record-per-imported-dataset-with-its-sample-count', 'implies(FINAL == 0, len(merge_metadata) == len(MV) and forall(lambda j: implies(0 <= j < len(MN), merge_metadata[j].n_samples == MN[j])))'),
+            ],
+            raises={}, canaries=[('never-final', 'FINAL == 0'), ('always-final', 'FINAL == 1')],
+        ))
+        # (5) one filing iteration (the body of the last loop): the record goes to the end of exactly one bin >= 1
+        cs.append(_file_one('VariantDatasetCombiner._step_gvcfs', 'VariantDatasetCombiner._step_gvcfs[file one dataset]', 'md', calls))
+    # (6) _step_vdses, from the statement that may write the final output to the end: final only when nothing is pending; otherwise
+    #     the merged dataset is appended to a bin ABOVE the bin the merge started from, with the merged sample count
+    v = pyvc.find_function(tree, 'VariantDatasetCombiner._step_vdses')
+    vi, vanchor = _tail_anchor(v, '_write_final')
+    ctx.add(core.decided('C38/VariantDatasetCombiner._step_vdses/the-final-output-is-written-from-one-top-level-statement',
+                         vi is not None and sum(1 for n in _ast.walk(v) if isinstance(n, _ast.Call) and pyvc._dotted(n.func) == 'self._write_final') == 1, 'index %r' % vi, kind='scan'))
+    if vi is not None:
+        cs.append(Contract(
+            path=COMB, qualname='VariantDatasetCombiner._step_vdses', label='VariantDatasetCombiner._step_vdses[final-write guard]', fragment=(vanchor, 1),
+            types=dict(FILING_TYPES), extra_inputs=dict(FILING_INPUTS, CMB='U'), strings=True, float_as_real=True,
+            setup=_filing_setup(lambda eng, st: st.env.update({'combined': st.env['CMB']})), requires=['BF >= 2'], calls=calls,
+            ensures=[FINAL_ONLY_AT_THE_END, ('the-final-output-is-the-merged-dataset-written-once', 'implies(FINAL >= 1, FINAL == 1 and FINAL_ARG == CMB)'),
+                     ('pending-inputs-untouched', 'self._gvcfs == G and len(self._vdses) == len(OLD)')],
+            raises={}, canaries=[('never-final', 'FINAL == 0'), ('always-final', 'FINAL == 1')],
+        ))
+        cs.append(Contract(
+            path=COMB, qualname='VariantDatasetCombiner._step_vdses', label='VariantDatasetCombiner._step_vdses[filing]', fragment=(vanchor, len(v.body) - vi),
+            types=dict(FILING_TYPES), extra_inputs=dict(FILING_INPUTS, CMB='U', TP='str', NS='int', OB='int', NB0='int'), strings=True, float_as_real=True,
+            setup=_filing_setup(lambda eng, st: st.env.update({'combined': st.env['CMB'], 'temp_path': st.env['TP'], 'new_n_samples': st.env['NS'], 'original_bin': st.env['OB'], 'new_bin': st.env['NB0']})),
+            requires=['BF >= 2', 'NS >= 1'], calls=calls,  # no quantified hypothesis: a wrong bin has a counter-model the solver can produce
+            ensures=[
+                ('a-final-write-files-nothing', 'implies(FINAL >= 1, ' + SAME_BINS + ')'),
+                ('pending-gvcfs-untouched', 'self._gvcfs == G'),
+                ('otherwise-the-merged-dataset-is-filed-in-a-later-bin', 'implies(FINAL == 0, new_bin > OB and new_bin in self._vdses)'),
+                ('at-the-end-of-that-bin', 'implies(FINAL == 0, len(self._vdses[new_bin]) == ite(new_bin in OLD, len(OLD[new_bin]), 0) + 1)'),
+                ('pending-datasets-are-kept-in-order', KEPT),
+                ('other-bins-untouched', 'implies(FINAL == 0, forall(lambda b: implies(b != new_bin, (b in self._vdses) == (b in OLD) and implies(b in OLD, self._vdses[b] == OLD[b]))))'),
+            ],
+            raises={}, canaries=[('never-final', 'FINAL == 0'), ('always-final', 'FINAL == 1')],
+        ))
+    if vi is not None:
+        cs.append(Contract(
+            path=COMB, qualname='VariantDatasetCombiner._step_vdses', label='VariantDatasetCombiner._step_vdses[filing: sample count]', fragment=(vanchor, len(v.body) - vi),
+            types=dict(FILING_TYPES), extra_inputs=dict(FILING_INPUTS, CMB='U', TP='str', NS='int', OB='int', NB0='int'), strings=True, float_as_real=True,
+            setup=_filing_setup(lambda eng, st: st.env.update({'combined': st.env['CMB'], 'temp_path': st.env['TP'], 'new_n_samples': st.env['NS'], 'original_bin': st.env['OB'], 'new_bin': st.env['NB0']})),
+            requires=['BF >= 2', 'NS >= 1'], axioms=[META_AXIOM], calls=calls,
+            ensures=[('the-new-record-carries-the-merged-sample-count', 'implies(FINAL == 0, self._vdses[new_bin][len(self._vdses[new_bin]) - 1].n_samples == NS)')],
+            raises={},
+        ))
+    if gi is not None:
+        # how many records are filed, with quantifier-free invariants (a loop that skips a record then has a counter-model)
+        cs.append(Contract(
+            path=COMB, qualname='VariantDatasetCombiner._step_gvcfs', label='VariantDatasetCombiner._step_gvcfs[filing: count]', fragment=(ganchor, len(g.body) - gi),
+            types=dict(FILING_TYPES, merge_vds='List[U]', merge_n_samples='List[int]'), extra_inputs=dict(FILING_INPUTS, MV='List[U]', MN='List[int]', MM0='List[U]'), strings=True, float_as_real=True,
+            setup=_filing_setup(lambda eng, st: st.env.update({'merge_vds': st.env['MV'], 'merge_n_samples': st.env['MN'], 'merge_metadata': st.env['MM0'], 'FILED': z3.IntVal(0)})),
+            requires=['BF >= 2', 'len(MV) == len(MN)', 'len(MV) >= 1'], calls=calls,
+            ghosts=[pyvc.Ghost('re:^self\\._vdses\\[.*\\]\\.append\\(md\\)$', 'FILED = FILED + 1')],
+            loops={'re:^for md in ': LoopSpec(index='k_', modifies=['FILED'], invariants=[('no-final-write', 'FINAL == 0'), ('one-filing-per-round', 'FILED == k_')])},
+            ensures=[('as-many-filings-as-imported-datasets', 'implies(FINAL == 0, FILED == len(MV) and len(merge_metadata) == len(MV))')],
+            raises={},
+        ))
+    # (7) __init__ files the input datasets with the same statement
+    cs.append(_file_one('VariantDatasetCombiner.__init__', 'VariantDatasetCombiner.__init__[file one input dataset]', 'vds', calls))
+    for c in cs:
+        eng = pyvc.Engine(ctx, c)
+        eng.replayer = lambda model, obl: core.run_native(COMBINER_REPLAY, {'scenario': 'search'}, timeout=300)
+        eng.run()
+        ctx.add(core.decided('C38/%s/no-call-outside-the-contract' % eng.label, not eng.unmodelled, repr(eng.unmodelled), kind='frame'))
+
+
+def _file_one(qualname, label, var, calls):
+    K = 'max(1, floor(log(%s.n_samples, BF)))' % var
+    return Contract(
+        path=COMB, qualname=qualname, label=label, fragment=('re:^self\\._vdses\\[.*\\]\\.append\\(%s\\)$' % var, 1),
+        types=dict(FILING_TYPES), extra_inputs=dict(FILING_INPUTS, MD='U'), strings=True, float_as_real=True,
+        setup=_filing_setup(lambda eng, st: st.env.update({var: st.env['MD']})), requires=['BF >= 2'], calls=calls,
+        ensures=[
+            ('appended-to-the-end-of-its-bin', 'K_ in self._vdses and implies(K_ in OLD, self._vdses[K_] == OLD[K_] + [MD]) and implies(not (K_ in OLD), self._vdses[K_] == [MD])'.replace('K_', K)),
+            ('bins-start-at-one', '%s >= 1' % K),
+            ('other-bins-untouched', 'forall(lambda b: implies(b != %s, (b in self._vdses) == (b in OLD) and implies(b in OLD, self._vdses[b] == OLD[b])))' % K),
+            ('nothing-else-changes', 'self._gvcfs == G and FINAL == 0'),
+        ],
+        raises={}, canaries=[('always-a-new-bin', 'not (%s in OLD)' % K)],
+    )
+
+
+
+def _resume(ctx, tree, props):
+    """new_combiner.maybe_load_from_saved_path: a plan found at save_path is resumed with the caller's branch factor / batch size.
+    The resumed object must satisfy what __init__ guarantees for a new one (batch size >= 1, branch factor >= 2: the selection
+    contracts above need both to take at least one input per step) and must still hold the saved pending inputs."""
+    def load_combiner(eng, st, args, kw, node):
+        rec = pyvc.SRecord('VariantDatasetCombiner', {
+            '_gvcfs': st.env['LG'], '_vdses': st.env['LB'], '_gvcf_batch_size': st.env['LBS'], '_branch_factor': st.env['LBF'], '_target_records': st.env['LTR'],
+            '_gvcf_import_intervals': st.env['LI'], '_gvcf_sample_names': st.env['LN'], '_save_path': args[0]})
+        raise pyvc.Fork(node, [('plan-loaded', None, 'value', rec, None)] + [('load-raises-' + x, None, 'raise', pyvc.SExc(x), None) for x in ('ValueError', 'TypeError', 'OSError', 'KeyError', 'FatalError')])
+
+    calls = props.models({
+        'hl.current_backend': lambda eng, st, args, kw, node: pyvc.SRecord('Backend', {'fs': z3.Const('the_fs', pyvc.U)}),
+        '.exists': lambda eng, st, args, kw, node: z3.Bool(pyvc.fresh_name('exists')),
+        'load_combiner': load_combiner, 'warning': lambda eng, st, args, kw, node: None,
+    })
+    c = Contract(
+        path=COMB, qualname='new_combiner.maybe_load_from_saved_path', types={'save_path': 'str'}, strings=True, float_as_real=True,
+        extra_inputs={'force': 'bool', 'branch_factor': 'int', 'target_records': 'int', 'gvcf_batch_size': 'int', 'gvcf_paths': 'List[U]', 'vds_paths': 'List[U]', 'gvcf_sample_names': 'List[U]', 'LG': 'List[U]', 'LB': 'Map[int, List[U]]', 'LBS': 'int', 'LBF': 'int', 'LTR': 'int',
+                      'LI': 'List[U]', 'LN': 'List[U]'},
+        requires=['branch_factor >= 2', 'gvcf_batch_size >= 1', 'LBS >= 1', 'LBF >= 2'], calls=calls,
+        ensures=[
+            ('a-resumed-plan-takes-at-least-one-input-per-step', 'True if result is None else (result._gvcf_batch_size >= 1 and result._branch_factor >= 2)'),
+            ('the-pending-inputs-of-the-saved-plan-are-taken-over-unchanged', 'True if result is None else (result._gvcfs == LG and len(result._vdses) == len(LB) and forall(lambda b: (b in result._vdses) == (b in LB) and implies(b in LB, result._vdses[b] == LB[b])) and result._gvcf_sample_names == LN and result._gvcf_import_intervals == LI)'),
+            ('force-starts-afresh', 'implies(force, result is None)'),
+        ],
+        raises={'FatalError': True}, canaries=[('never-resumes', 'result is None')],
+    )
+    eng = pyvc.Engine(ctx, c)
+    eng.replayer = lambda model, obl: core.run_native(COMBINER_REPLAY, {'scenario': 'resume'}, timeout=300)
+    eng.run()
+    ctx.add(core.decided('C38/%s/no-call-outside-the-contract' % eng.label, not eng.unmodelled, repr(eng.unmodelled), kind='frame'))
+
+
+
+def _setter_and_step(ctx, tree, props):
+    # (8) the public batch-size setter (the only other writer of _gvcf_batch_size besides __init__ and the resume path)
+    pr = _class_properties(tree, 'VariantDatasetCombiner')
+    if 'set' in pr.get('gvcf_batch_size', {}):
+        fn = pr['gvcf_batch_size']['set']
+        c = Contract(
+            path=COMB, qualname='VariantDatasetCombiner.gvcf_batch_size', label='VariantDatasetCombiner.gvcf_batch_size[setter]', types={'value': 'int'}, strings=True,
+            self_fields={'_gvcf_import_intervals': 'List[U]', '_gvcf_batch_size': 'int'}, consts=dict(props.consts), calls={'warning': lambda eng, st, args, kw, node: None},
+            requires=['value >= 1'],
+            ensures=[
+                ('never-more-than-requested', 'self._gvcf_batch_size <= old(value)'),
+                ('unchanged-request-when-within-the-task-limit', 'implies(old(value) * len(self._gvcf_import_intervals) <= LIMIT, self._gvcf_batch_size == old(value))'),
+                ('import-intervals-untouched', 'self._gvcf_import_intervals == old(self._gvcf_import_intervals)'),
+                ('batch-size-stays-at-least-one', 'self._gvcf_batch_size >= 1'),
+            ],
+            ghost_init={'LIMIT': 'VariantDatasetCombiner._gvcf_merge_task_limit'}, raises={}, canaries=[('never-clamps', 'self._gvcf_batch_size == old(value)')],
+        )
+        eng = pyvc.Engine(ctx, c)
+        eng.fn = fn
+        eng.loop_ordinals = {id(n): k for k, n in enumerate(eng._loops_preorder(fn))}
+        eng.replayer = lambda model, obl: core.run_native(COMBINER_REPLAY, {'scenario': 'setter'})
+        eng.run()
+    # closed world: who writes the two step parameters
+    writers = []
+    for n in _ast.walk(tree):
+        tg = []
+        if isinstance(n, _ast.Assign):
+            tg = n.targets
+        elif isinstance(n, (_ast.AugAssign, _ast.AnnAssign)):
+            tg = [n.target]
+        for t in tg:
+            for x in _ast.walk(t):
+                if isinstance(x, _ast.Attribute) and isinstance(x.ctx, _ast.Store) and x.attr in ('_gvcf_batch_size', 'gvcf_batch_size', '_branch_factor'):
+                    writers.append('%s = %s' % (_ast.unparse(x), _ast.unparse(n.value) if getattr(n, 'value', None) is not None else '?'))
+    expected = sorted(['self._branch_factor = branch_factor', 'self._gvcf_batch_size = gvcf_batch_size', 'self._gvcf_batch_size = value', 'combiner._branch_factor = branch_factor', 'combiner._gvcf_batch_size = gvcf_batch_size'])
+    ctx.add(core.decided('C38/VariantDatasetCombiner/step-parameters-are-written-only-by-init-the-setter-and-the-resume-path', sorted(writers) == expected, repr(sorted(writers)), kind='scan'))
+    init = pyvc.find_function(tree, 'VariantDatasetCombiner.__init__')
+    rebound = [n.id for n in _ast.walk(init) if isinstance(n, _ast.Name) and isinstance(n.ctx, (_ast.Store, _ast.Del)) and n.id in ('branch_factor', 'gvcf_batch_size')]
+    ctx.add(core.decided('C38/VariantDatasetCombiner.__init__/validated-parameters-are-stored-as-validated', not rebound, repr(rebound), kind='scan'))
+    c = Contract(
+        path=COMB, qualname='VariantDatasetCombiner.__init__', label='VariantDatasetCombiner.__init__[parameter validation]', fragment=('re:^if branch_factor < 2$', 're:^if gvcf_batch_size < 1$'), strings=True,
+        extra_inputs={'branch_factor': 'int', 'gvcf_batch_size': 'int'},
+        ensures=[('a-new-plan-takes-at-least-one-input-per-step', 'branch_factor >= 2 and gvcf_batch_size >= 1')], raises={'ValueError': 'branch_factor < 2 or gvcf_batch_size < 1'},
+        canaries=[('rejects-nothing', 'branch_factor < 2')],
+    )
+    pyvc.Engine(ctx, c).run()
+    ctx.add(core.decided('C38/VariantDatasetCombiner.__init__/pending-datasets-live-in-a-defaultdict-of-lists', 'self._vdses = collections.defaultdict(list)' in _ast.unparse(init)
+                         and sum(1 for n in _ast.walk(tree) if isinstance(n, _ast.Assign) and any(_ast.unparse(t).endswith('._vdses') for t in n.targets)) == 1, '', kind='scan'))
+    md = [n for n in tree.body if isinstance(n, _ast.ClassDef) and n.name == 'VDSMetadata']
+    fields = [x.target.id for x in md[0].body if isinstance(x, _ast.AnnAssign)] if md else []
+    ctx.add(core.decided('C38/VDSMetadata/is-the-pair-path-n_samples', fields == ['path', 'n_samples'] and [_ast.unparse(b) for b in md[0].bases] == ['NamedTuple'], repr(fields), kind='scan'))
+
+    # (9) step(): which of the two step functions runs, and that each runs only where its selection contract applies
+    def stepper(which):
+        def model(eng, st, args, kw, node):
+            rec = st.env['self']
+            st.env['CALLED_' + which] = st.env['CALLED_' + which] + 1
+            if which == 'G':
+                st.env['PRE_G'] = rec.fields['_gvcfs'].len >= 1
+            else:
+                st.env['PRE_V'] = rec.fields['_vdses'].size >= 1
+            for f, t in (('_gvcfs', 'List[U]'), ('_vdses', 'Map[int, List[U]]')):
+                v = pyvc.fresh_value(pyvc.parse_type(t), 'after_step' + f)
+                for w in pyvc.wf_constraints(v):
+                    st.assume(w)
+                rec.fields[f] = v
+            return None
+        return model
+
+    def setup(eng, st):
+        st.env.update({'CALLED_G': z3.IntVal(0), 'CALLED_V': z3.IntVal(0), 'PRE_G': z3.BoolVal(True), 'PRE_V': z3.BoolVal(True)})
+
+    c = Contract(
+        path=COMB, qualname='VariantDatasetCombiner.step', self_fields={'_gvcfs': 'List[U]', '_vdses': 'Map[int, List[U]]', '_job_id': 'int'}, setup=setup,
+        calls=props.models({'self._step_gvcfs': stepper('G'), 'self._step_vdses': stepper('V')}),
+        ensures=[
+            ('a-gvcf-step-runs-only-with-pending-gvcfs', 'implies(CALLED_G >= 1, PRE_G)'),
+            ('a-dataset-step-runs-only-with-pending-datasets', 'implies(CALLED_V >= 1, PRE_V)'),
+            ('exactly-one-step-unless-finished', 'CALLED_G + CALLED_V == ite(len(old(self._gvcfs)) == 0 and len(old(self._vdses)) == 0, 0, 1)'),
+            ('a-finished-plan-is-left-alone', 'implies(len(old(self._gvcfs)) == 0 and len(old(self._vdses)) == 0, self._gvcfs == old(self._gvcfs) and len(self._vdses) == 0 and self._job_id == old(self._job_id))'),
+            ('an-unfinished-plan-gets-a-new-job-number', 'implies(len(self._gvcfs) > 0 or len(self._vdses) > 0, self._job_id == old(self._job_id) + 1)'),
+        ],
+        raises={}, canaries=[('never-steps', 'CALLED_G + CALLED_V == 0'), ('only-gvcf-steps', 'CALLED_V == 0')],
+    )
+    eng = pyvc.Engine(ctx, c)
+    eng.run()
+    ctx.add(core.decided('C38/%s/no-call-outside-the-contract' % eng.label, not eng.unmodelled, repr(eng.unmodelled), kind='frame'))
+    # run(): save, step, ... until finished, then one more save
+    run = pyvc.find_function(tree, 'VariantDatasetCombiner.run')
+    loops = [n for n in run.body if isinstance(n, _ast.While)]
+    ok = len(loops) == 1 and _ast.unparse(loops[0].test) == 'not self.finished' and [_ast.unparse(x) for x in loops[0].body] == ['self.save()', 'self.step()'] and not loops[0].orelse
+    ok = ok and _ast.unparse(run.body[run.body.index(loops[0]) + 1]) == 'self.save()' if ok else False
+    ctx.add(core.decided('C38/VariantDatasetCombiner.run/saves-the-plan-before-every-step-steps-until-finished-and-saves-the-finished-plan', ok, '', kind='scan'))
+    ctx.under_contract(COMB, 'VariantDatasetCombiner.run (loop shape)')
+
+
+def _search():
+    r = core.run_native(REPLAY, {'search': True})
+    if r.get('confirmed'):
+        return r
+    r2 = core.run_native(COMBINER_REPLAY, {'scenario': 'search'}, timeout=300)
+    return r2 if r2.get('confirmed') or 'error' not in r2 else r
 
 
 def native_witness(ctx):
-    """concrete search on the real code, usable when the contracts no longer apply to a changed source (vc/check.py)"""
-    return core.run_native(REPLAY, {'search': True})
+    """concrete search on the real code, usable when the contracts no longer apply to a changed source (vc/check.py): the
+    partitioning on small contigs, then the real combiner class driven step by step on small plans / through the resume path"""
+    return _search()
 
 
 def build(ctx):
@@ -225,10 +695,14 @@ def build(ctx):
     eng.replayer = replayer
     eng.run()
     _plan(ctx)
-    ctx.witness_search = lambda: core.run_native(REPLAY, {'search': True})
+    ctx.witness_search = _search
     ctx.assume('math.ceil(a / b) on Python ints equals the exact rational ceiling (float division rounding cannot cross an integer for a < 2**53; contig lengths are < 2**31)')
     ctx.assume('"no longer than requested" is read as end - start <= interval_size (the code\'s own unit; an inclusive interval then holds one more locus)')
     ctx.assume('hl.Interval / hl.Locus are value constructors: an interval is the pair (start position, end position), includes_end=True')
-    ctx.undecided('merge plan: the selection statements of _step_vdses / _step_gvcfs are under contract (splits per bin); that the new dataset is filed in a later bin and the run terminates is not')
-    ctx.undecided('save/resume of the combiner plan (JSON encode/decode of the combiner state)')
-    ctx.undecided('engine calls (combine_variant_datasets, import_gvcfs) and termination of run()')
+    ctx.assume('calls into the query engine, the file system and the logger (hl.*, dataset.write, os.path.join, info/warning) do not touch the combiner plan; their results are opaque')
+    ctx.assume('VDSMetadata(path, n_samples) is a free pair constructor (typing.NamedTuple with exactly these fields: checked on the class)')
+    ctx.assume('floor(log(n, b)) is some integer (nothing about its value is used: bins only need to be >= 1 / above the starting bin, which the code forces itself)')
+    ctx.assume('new_combiner is called with branch_factor >= 2 and gvcf_batch_size >= 1 also when it resumes a saved plan (only __init__ validates them; the resume path stores them unchecked)')
+    ctx.undecided('termination of run(): every GVCF step takes at least one GVCF, the merged dataset goes to a later bin, step() runs exactly one step - proved; that a non-final dataset step merges at least two datasets (so the number of pending datasets falls) is not')
+    ctx.undecided('save/resume: the resume path of new_combiner is under contract given what load_combiner returns; the JSON Encoder / Decoder round trip of the plan (to_dict, Decoder._object_hook) is not')
+    ctx.undecided('engine calls (combine_variant_datasets, import of the GVCF batches): that the dataset written is built from exactly the files selected')
